@@ -2,6 +2,7 @@ package sym
 
 import (
 	"fmt"
+	"math"
 	"math/big"
 
 	"golang.org/x/tools/go/ssa"
@@ -137,6 +138,44 @@ func (e *Exec) abstractB58Decode(s *Str) Value {
 
 func (e *Exec) intrinsicMisc(name string, fn *ssa.Function, args []Value) (Value, bool) {
 	switch name {
+	case "math.Round":
+		x := args[0].(*smt.Term)
+		if x.IsConst() {
+			return smt.FPC(math.Float64bits(math.Round(math.Float64frombits(x.Val)))), true
+		}
+		return smt.Fp(smt.OFpRoundRNA, smt.FP64, x), true
+	case "math.Trunc":
+		x := args[0].(*smt.Term)
+		if x.IsConst() {
+			return smt.FPC(math.Float64bits(math.Trunc(math.Float64frombits(x.Val)))), true
+		}
+		return smt.Fp(smt.OFpRoundRTZ, smt.FP64, x), true
+	case "math.Abs":
+		x := args[0].(*smt.Term)
+		if x.IsConst() {
+			return smt.FPC(math.Float64bits(math.Abs(math.Float64frombits(x.Val)))), true
+		}
+		return smt.Fp(smt.OFpAbs, smt.FP64, x), true
+	case "math.Log":
+		x := args[0].(*smt.Term)
+		if x.IsConst() {
+			return smt.FPC(math.Float64bits(math.Log(math.Float64frombits(x.Val)))), true
+		}
+		// unconstrained result (any float, including NaN and infinities)
+		e.fresh++
+		return smt.Var(fmt.Sprintf("mathlog_%d", e.fresh), smt.FP64), true
+	case "math.Float64frombits":
+		x := args[0].(*smt.Term)
+		if c, ok := x.ConstU(); ok {
+			return smt.FPC(c), true
+		}
+		return smt.Fp(smt.OFpFromBits, smt.FP64, x), true
+	case "math.IsNaN":
+		x := args[0].(*smt.Term)
+		if x.IsConst() {
+			return smt.BoolC(math.IsNaN(math.Float64frombits(x.Val))), true
+		}
+		return smt.Fp(smt.OFpIsNaN, smt.Bool, x), true
 	case "github.com/gcash/bchutil/base58.Encode":
 		if e.Cfg.RealBase58 {
 			return nil, false
